@@ -265,6 +265,51 @@ func Await(t *Task, w time.Duration) HangInfo {
 	return hi
 }
 
+// AwaitCompletion is Await for a task that waits on a completion channel handed out by the library (a correctable's Done or
+// Watch): the task itself is then parked in the caller's own code, outside any library frame. The call counts as hung when, in
+// both dumps, the task is parked and the library goroutine that is to complete the call (one with the given frame on its stack,
+// created for this call; the scenario must not have other such calls outstanding) still exists, whatever it is doing.
+func AwaitCompletion(t *Task, w time.Duration, frame string) HangInfo {
+	hi := Await(t, w)
+	if hi.Verdict != Inconclusive || hi.Frame != "" || !parked(hi.State) {
+		return hi
+	}
+	// Await took its two dumps already; take two more, one second apart, for the library goroutine
+	alive := func() (string, string, bool) {
+		for _, g := range Dump() {
+			for _, f := range g.Frames {
+				if strings.HasSuffix(f, frame) {
+					return g.State, g.Text, true
+				}
+			}
+		}
+		return "", "", false
+	}
+	s1, _, ok1 := alive()
+	select {
+	case <-t.Done:
+		return HangInfo{Verdict: Returned}
+	case <-time.After(time.Second):
+	}
+	s2, text, ok2 := alive()
+	select {
+	case <-t.Done:
+		return HangInfo{Verdict: Returned}
+	default:
+	}
+	if !ok1 || !ok2 {
+		return hi
+	}
+	st := "busy"
+	if s1 == s2 && parked(s2) {
+		st = s2
+	}
+	hi.Verdict = Hung
+	hi.Sig = "not-completed:" + st + "@" + frame
+	hi.Stack = text
+	return hi
+}
+
 // AwaitChan is Await for a bare channel (no goroutine to inspect): Hung is
 // decided from the library goroutines alone when a frame pattern is parked in both dumps.
 func AwaitChan(done <-chan struct{}, w time.Duration) bool {
